@@ -5,11 +5,15 @@ HERE = os.path.dirname(os.path.dirname(os.path.abspath(__file__)))
 sys.path.insert(0, HERE)
 props = [json.loads(l) for l in open(os.path.join(HERE, 'properties.jsonl'))]
 checks, na = [], []
+claimed = set(open(os.path.join(HERE, 'tools', 'claimed.txt')).read().split())
 for p in props:
     pid = p['id']
     f = os.path.join(HERE, 'harness', pid.lower() + '.py')
     if not os.path.exists(f):
         na.append({'property_id': pid, 'reason': 'check not built yet (planned: see DESIGN.md section 4)'})
+        continue
+    if pid not in claimed:
+        na.append({'property_id': pid, 'reason': 'check under construction: present in the tree but not yet passing the integration run on the unchanged tree, so not claimed'})
         continue
     m = importlib.import_module('harness.' + pid.lower())
     checks.append({
